@@ -60,7 +60,7 @@ def _pairs():
               dict(chans=[channel("X", sample("s", 1, normfactor()), sample("b", 1, normsys("kx")))]),
               dict(chans=[channel("Y", sample("s", 2, normfactor("nu")), sample("b", 2, histosys("hy", 2)))], poi="nu")))
     P.append(("shared-name-across-types",
-              dict(chans=[channel("L1", sample("sig", 2, normfactor(), normsys("JES")), sample("bkg", 2, histosys("JES", 2), normsys("xs")))],
+              dict(chans=[channel("L1", sample("sig", 2, normfactor(), normsys("JES")), sample("bkg", 2, normsys("JES"), histosys("JES", 2), normsys("xs")))],
                    pars=[{"name": "JES", "auxdata": ["$x"], "inits": ["$x"], "fixed": True}, {"name": "xs", "inits": ["$x"]}]),
               dict(chans=[channel("R1", sample("sig", 1, normfactor(), normsys("JES")))])))
     return P
